@@ -44,6 +44,12 @@ def run(ctx):
     # the history stalls): a failed poll must halve the mesh, never quarter it
     runlevel.scripted_controller_runs(ctx, "c13noaccel", 5 if ctx.quick else 40, force_options={"accelerate_mesh": False, "tol_mesh": 1e-6},
                                       weights=[0.4, 0.3, 6, 3, 0.3, 0.2, 0.2])
+    # a long run of successes while the mesh sits at its cap (the overflow counter passes its warning level), then failures, then successes
+    # again BELOW the cap: those must double the mesh like any other
+    runlevel.scripted_controller_runs(ctx, "c13cap", 4 if ctx.quick else 30, force_options={"max_fun_evals": 200, "tol_stall_iters": 60}, weights=[1, 0, 0, 0, 0, 0, 0],
+                                      plan=lambda r: [[r.choice([40, 60, 80]), [0, 0, 1, 3, 0, 0, 0], [1, 0, 0, 0, 0, 0, 0]],      # searches fail, every poll succeeds at once
+                                                      [r.choice([6, 10, 14]), [0, 0, 1, 3, 0, 0, 0]],                          # everything fails
+                                                      [80, [0, 0, 1, 2, 0, 0, 0], [4, 0, 1, 1, 0, 0, 0]]])                     # polls mostly succeed again
     stats, samples = runlevel.ctl_replay(ctx, rep, "C13")
     traces = runlevel.get_pool(ctx)
     rep.coverage = {
